@@ -1,7 +1,6 @@
-(** C16 - Duplicate-packets mode.  Pinned statements only (worker side; the start-up
-    rejection of N >= 255 is pinned with the configuration parser in C17's model). *)
+(** C16 - Duplicate-packets mode.  Pinned statements only. *)
 From Tftp Require Import Base.Prelude Model.Types Model.Consts Model.Codec Model.Window Model.Worker Model.Spec
-  Proofs.CodecP Proofs.SpecP Proofs.WindowP Proofs.SendP Proofs.RecvP.
+  Model.Config Proofs.CodecP Proofs.SpecP Proofs.WindowP Proofs.SendP Proofs.RecvP Proofs.ConfigP.
 Local Open Scope N_scope.
 
 (** [send_packet]: [rep = N + 1] copies back to back; only the result of the first copy
@@ -50,6 +49,14 @@ Theorem C16_duplicate_ack_harmless : forall cfg F st e r, wf_params (s_blk cfg) 
   send_step cfg st e = (with_since st (ev_delay e), []).
 Proof. exact stale_ack_is_inert. Qed.
 
+(** [--duplicate-packets N] is accepted at start-up iff N parses as a u8 below 255; the workers'
+    repeat count N + 1 then fits a u8. *)
+Theorem C16_dup_config_bounds : forall exists_ parse_ip v c rest,
+  (exists e, parse_loop exists_ parse_ip c (s_duplicate_packets :: v :: rest) = CErr e) \/
+  (exists d, parse_bounded 256 v = Some d /\ d < 255 /\
+             parse_loop exists_ parse_ip c (s_duplicate_packets :: v :: rest) = parse_loop exists_ parse_ip (set_dup c d) rest).
+Proof. exact dup_config_bounds. Qed.
+
 (** Non-vacuity: [rep = 3], the third copy of the final ACK fails (defect D9 before its repair):
     the upload still completes and the file is kept. *)
 Example C16_ex_third_copy_fails :
@@ -64,3 +71,4 @@ Proof. vm_compute. reflexivity. Qed.
 Print Assumptions C16_first_copy_decides.
 Print Assumptions C16_data_repeated.
 Print Assumptions C16_ack_repeated.
+Print Assumptions C16_dup_config_bounds.
